@@ -206,6 +206,23 @@ def aligned(x, sem):
 def check_pair(name, h, w, seed):
     import kappadata.transforms.semseg as S
     x, sem = pair(h, w)
+    if name == "crop_dominated":
+        # one class dominates every window: all re-draws of the category-ratio loop are rejected
+        sem = torch.ones(h, w, dtype=torch.long)
+        sem[::3, ::4] = torch.arange(2, 2 + sem[::3, ::4].numel()).reshape(sem[::3, ::4].shape) % 100 + 2
+        g = torch.Generator().manual_seed(seed)
+        x = torch.rand(1, h, w, generator=g)
+        t = S.KDSemsegRandomCrop(size=(4, 3), max_category_ratio=0.05).set_rng(rng(seed))
+        key = x[0] * 1000 + sem               # both members tagged per pixel: same window <=> tags agree
+        y, s = t((x, sem))
+        if tuple(y.shape[-2:]) != tuple(s.shape[-2:]):
+            return "crop_dominated: image and mask sizes differ"
+        ok = False
+        for top in range(h - y.shape[-2] + 1):
+            for left in range(w - y.shape[-1] + 1):
+                if torch.equal(x[:, top:top + y.shape[-2], left:left + y.shape[-1]], y):
+                    ok = ok or torch.equal(sem[top:top + y.shape[-2], left:left + y.shape[-1]], s)
+        return None if ok else "crop_dominated: image and mask were cropped at different windows"
     if name == "pad":
         t = S.KDSemsegPad(size=(12, 10))
         y, s = t((x, sem))
@@ -321,6 +338,12 @@ def check_inverses(h, w, ph, pw, seed):
     inv[perm] = torch.arange(len(perm))
     if not torch.equal(UnpatchifyImage()(q[:, inv], ctx), x):
         return "unpatchify(unshuffle(shuffle(patchify(x)))) != x"
+    # the same transform instance applied to a second sample: the first sample's recorded permutation still describes its shuffle
+    ctx_b = {}
+    sh(PatchifyImage((ph, pw))(x.clone() + 1, ctx_b), ctx_b)
+    perm_again = torch.as_tensor(np.asarray(ctx["permutation"]))
+    if not torch.equal(perm_again, perm) or not torch.equal(q, p[:, perm_again]):
+        return "the permutation recorded for an earlier sample changed when the transform was applied again"
     p5 = Patchify((ph, pw))(x.clone())
     if tuple(p5.shape) != (3, h, w, ph, pw) or not torch.equal(Unpatchify()(p5), x):
         return "Unpatchify(Patchify(x)) != x"
@@ -360,7 +383,7 @@ def cases(thorough=False, hints=()):
             yield ("random_erasing", lambda a=(h, w, count, seed, mode): check_erasing(*a), dict(h=h, w=w, count=count, seed=seed, mode=mode))
         for tm, fm in ((3, None), (None, 4), (2, 2), (1, 1), (50, 50)):
             yield ("spec_augment", lambda a=(h, w, tm, fm, seed): check_spec_augment(*a), dict(f=h, t=w, time_masking=tm, frequency_masking=fm, seed=seed))
-        for name in ("pad", "crop", "flip", "resize", "random_resize", "multi_crop"):
+        for name in ("pad", "crop", "crop_dominated", "flip", "resize", "random_resize", "multi_crop"):
             yield ("semseg_" + name, lambda a=(name, h, w, seed): check_pair(*a), dict(transform=name, h=h, w=w, seed=seed))
         yield ("semseg_pipeline", lambda a=(h, w, seed): check_pipeline(*a), dict(h=h, w=w, seed=seed))
     for (h, w, ph, pw), seed in itertools.product([(1, 1, 1, 1), (2, 3, 4, 2), (4, 4, 2, 2), (3, 1, 5, 7), (1, 6, 3, 1)], seeds):
